@@ -4,12 +4,12 @@
 (* the spec -> code replay.                                                             *)
 EXTENDS Fragmentation, Json
 
-CONSTANTS MaxL, Preambles, LStride
+CONSTANTS MaxL, Preambles, LStride, ExtraL       \* ExtraL: additional payload lengths (extremes)
 
 VARIABLES c, i, slot, tok, mon, why, nstart, nend, rblocks, endedIds
 vars == <<c, i, slot, tok, mon, why, nstart, nend, rblocks, endedIds>>
 
-Configs == [L : {x \in 0..MaxL : x % LStride = 0 \/ x <= 60}, rate : {"R12", "R34", "R1"},
+Configs == [L : {x \in 0..MaxL : x % LStride = 0 \/ x <= 60} \cup ExtraL, rate : {"R12", "R34", "R1"},
             conf : BOOLEAN, p : Preambles]
 
 Representable(cf) == NBlocks(cf.L, cf.rate, cf.conf) <= 127            \* 7-bit blocks-to-follow
